@@ -95,7 +95,8 @@ def gen_prog(rng, depth, maxops):
     for _ in range(n):
         op = core.weighted(rng, [('nop', 2), ('inner', 3), ('set', 3),
                                  ('yield', 3), ('raise', 1), ('force', 1),
-                                 ('nested', 2 if depth < 3 else 0)])
+                                 ('nested', 2 if depth < 3 else 0),
+                                 ('renest', 1.5 if depth < 3 else 0)])
         if op == 'set':
             prog.append(['set', rng.random() < 0.5])
         elif op == 'force':
@@ -105,6 +106,11 @@ def gen_prog(rng, depth, maxops):
         elif op == 'raise':
             prog.append(['raise'])
             break
+        elif op == 'renest':
+            # a second block around the SAME active exception
+            prog.append(['renest', rng.random() < 0.7,
+                         gen_prog(rng, depth + 1, max(1, maxops // 2)),
+                         rng.random() < 0.75])
         elif op == 'nested':
             prog.append(['nested', rng.random() < 0.6,
                          gen_prog(rng, depth + 1, max(1, maxops // 2)),
@@ -160,6 +166,9 @@ class Ctx:
         self.forced = 0           # times force_reraise was called directly
         self.logs = 0
         self.k9 = False
+        self.touched = False      # the original's traceback was extended by
+        #                           a nested re-raise of the same object
+        self.normal_exit = False  # re-raised by completing the body
 
 
 def ref_body(ctx, prog, labels, ctxs, path):
@@ -177,6 +186,14 @@ def ref_body(ctx, prog, labels, ctxs, path):
                 ctx.k9 = True
             if not op[1]:
                 return ctx.orig
+        elif name == 'renest':
+            _n, r0, sub, caught = op
+            c2 = Ctx(ctx.orig, r0)
+            ctxs.append(c2)
+            ctx.touched = True
+            out = ref_block(c2, sub, labels, ctxs, path + [j])
+            if out is not None and not caught:
+                return out
         elif name == 'nested':
             _n, r0, sub, caught, _kind = op
             n0 = labels.new('nest', path + [j])
@@ -198,6 +215,7 @@ def ref_block(ctx, prog, labels, ctxs, path):
     if ctx.r:
         if ctx.forced:
             ctx.k9 = True
+        ctx.normal_exit = True
         return ctx.orig
     return None
 
@@ -266,6 +284,17 @@ class Real:
                         self.forced.append((e is orig, type(e).__name__))
                 else:
                     ctx.force_reraise()
+            elif name == 'renest':
+                _n, r0, sub, caught = op
+                lg = RecLogger()
+                self.loggers.append(lg)
+                try:
+                    with self.ex.save_and_reraise_exception(
+                            reraise=r0, logger=lg) as c2:
+                        self.body(c2, sub, yield_fn, path + [j], orig)
+                except BaseException:
+                    if not caught:
+                        raise
             elif name == 'nested':
                 _n, r0, sub, caught, kind = op
                 lab = '%s:nest:%s' % (self.tid,
@@ -496,7 +525,9 @@ class C09(Check):
     PROBES = ('original_reraised_same_object', 'new_exception_replaces',
               'reraise_off_nothing_raised', 'nested_block',
               'filter_suppressed', 'filter_propagated', 'interleaved_tasks',
-              'logged_original_dropped', 'k9_shape')
+              'logged_original_dropped', 'k9_shape',
+              'second_block_on_same_exception',
+              'traceback_prefix_compared')
 
     def setup(self):
         core.import_sut()
@@ -597,8 +628,8 @@ class C09(Check):
     @staticmethod
     def _shape(spec):
         def sh(p):
-            return [o[0] if o[0] != 'nested' else ['nested', sh(o[2])]
-                    for o in p]
+            return [o[0] if o[0] not in ('nested', 'renest')
+                    else [o[0], sh(o[2])] for o in p]
         if spec['c'] == 'A':
             return sh(spec['prog'])
         if spec['c'] == 'B':
@@ -619,7 +650,7 @@ class C09(Check):
         tid = r.tid
         orig = r.objs.get('%s:orig' % tid)
 
-        def expect(label, k9=False, check_tb=True):
+        def expect(label, k9=False, check_tb=True, prefix_ref=None):
             """label None: nothing raised; else that object must come out."""
             if label is None:
                 if res[0] != 'none':
@@ -636,10 +667,20 @@ class C09(Check):
                      same_type=type(res[1]) is type(want), k9=k9)
                 return
             if label.endswith(':orig') and check_tb and \
-                    'orig_tb' in r.notes and \
-                    not tb_endswith(res[2], r.notes['orig_tb']):
-                viol('original_traceback_lost', got=res[2][-4:],
-                     want=r.notes['orig_tb'])
+                    'orig_tb' in r.notes:
+                if not tb_endswith(res[2], r.notes['orig_tb']):
+                    viol('original_traceback_lost', got=res[2][-4:],
+                         want=r.notes['orig_tb'])
+                elif prefix_ref is not None:
+                    # what precedes the original frames must be exactly the
+                    # frames the re-raise itself adds (measured on this tree
+                    # with an empty handler body)
+                    bump(pr, 'traceback_prefix_compared')
+                    n0 = len(r.notes['orig_tb'])
+                    got = [f for f, _l in res[2][:len(res[2]) - n0]]
+                    if got != prefix_ref:
+                        viol('traceback_not_the_original_one', extra=got,
+                             expected_prefix=prefix_ref)
         nlog = 0
         if s['c'] == 'A':
             labels = Labels(tid)
@@ -655,7 +696,11 @@ class C09(Check):
                 bump(pr, 'original_reraised_same_object')
             else:
                 bump(pr, 'new_exception_replaces')
-            expect(out, k9=k9)
+            pref = None
+            if out is not None and out.endswith(':orig') and \
+                    ctxs[0].normal_exit and not k9:
+                pref = self._prefix_ref('A')
+            expect(out, k9=k9, prefix_ref=pref)
             # logging, per block in creation order
             got_logs = [len(lg.errors) for lg in r.loggers]
             want_logs = [c.logs for c in ctxs]
@@ -677,7 +722,7 @@ class C09(Check):
                     viol('force_reraise_raised_other', got=tname)
         elif s['c'] == 'B':
             if s['variant'] == 'capture_force':
-                expect('%s:orig' % tid)
+                expect('%s:orig' % tid, prefix_ref=self._prefix_ref('B'))
                 if r.notes.get('capture_returns_self') is False:
                     viol('capture_does_not_return_self')
                 bump(pr, 'original_reraised_same_object')
@@ -755,6 +800,27 @@ class C09(Check):
                                  got=res[0])
         return viols, nlog
 
+    def _prefix_ref(self, construct):
+        """Names of the frames a plain re-raise adds in front of the original
+        traceback on the current tree (empty handler body)."""
+        cache = self.__dict__.setdefault('_pref', {})
+        if construct not in cache:
+            spec = {'A': {'c': 'A', 'exc': 'plain', 'reraise': True,
+                          'prog': []},
+                    'B': {'c': 'B', 'exc': 'plain',
+                          'variant': 'capture_force', 'between': []}}[
+                              construct]
+            r = Real('ref', spec, self.ex, self.fu, None)
+            r.run(lambda: None)
+            res = r.result
+            if res[0] != 'raised' or 'orig_tb' not in r.notes or \
+                    not tb_endswith(res[2], r.notes['orig_tb']):
+                cache[construct] = None
+            else:
+                n0 = len(r.notes['orig_tb'])
+                cache[construct] = [f for f, _l in res[2][:len(res[2]) - n0]]
+        return cache[construct]
+
     def _count(self, prog, bump, fa, pr):
         for op in prog:
             if op[0] == 'inner':
@@ -765,8 +831,9 @@ class C09(Check):
                 bump(fa, 'exception_in_handler_body')
             elif op[0] == 'force':
                 bump(fa, 'force_reraise_direct')
-            elif op[0] == 'nested':
-                bump(pr, 'nested_block')
+            elif op[0] in ('nested', 'renest'):
+                bump(pr, 'nested_block' if op[0] == 'nested'
+                     else 'second_block_on_same_exception')
                 self._count(op[2], bump, fa, pr)
 
     # ------------------------------------------------------------------
@@ -814,7 +881,7 @@ class C09(Check):
             del p[j]
             yield c
         for j, op in enumerate(prog):
-            if op[0] == 'nested':
+            if op[0] in ('nested', 'renest'):
                 for c in self._prog_reductions(case, ti, op[2], path + [j]):
                     yield c
 
